@@ -206,13 +206,56 @@ CLAIMED = {
              'result) family is an open known finding.',
         technique='Lean 4 invariant proofs over sync protocol + differential against real pool/worker code in-process',
     ),
+
+    'C08': dict(
+        category='proof',
+        text='The statement-kind → capability table, Capability bit values and WRITE mask are GENERATED on every run by '
+             'symbolic execution of the isinstance chain of _compile_dispatch_ql (17 rows, 120 concrete qlast classes); '
+             'C08_kinds/C08_classes/C08_flags are decide-proofs over the generated table, so an edited table breaks a '
+             'proof obligation. Calculus theorems: containsDML ⇒ MODIFICATIONS (also under ANALYZE), no MODIFICATIONS ⇒ '
+             'database unchanged, group capability = OR of units, make_error ⇔ disallowed flag used. Tie: ~425 generated '
+             'terms with DML planted in 45 nesting contexts + 187 hand-written contexts + every statement kind + scripts '
+             'compiled by the REAL server compiler; oracle: DML node in the real parsed tree (following modifying '
+             'functions) ⇒ MODIFICATIONS flag.',
+        design_ref='§4 C08, §7',
+        note='That the real compiler visits every sub-expression is what the planted-DML runs test; it is not proved. '
+             'Volatility inference is not modelled (functions are Modifying iff body contains DML in the model).',
+        technique='Lean 4 decide-proofs over table regenerated from source + calculus proofs + real server-compiler differential',
+    ),
+    'C11': dict(
+        category='proof',
+        text='Lean theorems: any two dependency-respecting orderings of commuting declarations give the same result '
+             '(linear_extensions_equal), traced dependency graph depends only on the set of declarations (deps_perm), '
+             'C11_perm / C11_perm_nested (permutations at top level, module blocks, type bodies build equal schemas) via '
+             'C20 (topo_perm + topo_hard), C11_cycle (rejected as cyclic iff hard∪control edges cyclic; weak edges never '
+             'cause it). Tie: every permuted text goes through the REAL parse_sdl + apply_sdl; the DepGraphEntry map the '
+             'real tracer hands to topological.sort is recorded and compared with the model per load; schemas compared '
+             'by delta_schemas both ways + structural dump.',
+        design_ref='§4 C11, §7',
+        note='The expression tracer is an input of the model (Complete d is an explicit hypothesis): missed edges are '
+             'found only by permutations that need them — 16 such cases are open known findings (probe:*).',
+        technique='Lean 4 order-independence proof on top of C20 + differential on real SDL loading with recorded dependency graphs',
+    ),
+    'C16': dict(
+        category='proof',
+        text='Lean safety lemmas over the pool model shared with C15 (no-lost-wakeup invariant, waiters consistency, '
+             'abort_all on retry exhaustion, woken_empty, local progress C16_partial) and decide-checked counterexample '
+             'histories showing the full liveness statement is FALSE of the model, which follows the code. Tie: the REAL '
+             'Pool driven to quiescence under a fair deterministic scheduler (ticks included); every acquire must '
+             'complete; hangs are shrunk, classified by root cause and reproduced under plain asyncio.',
+        design_ref='§4 C16, §7',
+        note='Partial by nature: cross-block fairness depends on float-calibrated quotas (environment parameters in the '
+             'model). Three fault-free hang classes and the prune races are open known findings; the transfer/disconnect '
+             'hang was fixed (6ff8693).',
+        technique='Lean 4 invariant lemmas + counterexample theorems + fair-run quiescence testing of the real Pool',
+    ),
 }
 
 NOT_YET = 'check not built yet in this round (planned in DESIGN.md §4); not claimed until its theorem and tie exist'
 
 
 # packages delivered but not yet green on the unchanged tree (being reworked): not claimed until they are
-PENDING = {'C13'}
+PENDING = {'C13', 'C02', 'C10'}
 
 
 def main():
